@@ -3,6 +3,7 @@ package world
 import (
 	"crypto/x509"
 	"encoding/hex"
+	"fmt"
 	"io"
 	"sync"
 	"time"
@@ -157,3 +158,11 @@ func SetLogLevel(n int) { logLevel = n; logger.SetLevel(logger.Level(n)) }
 func LogLevel() int { return logLevel }
 
 var logLevel int
+
+// LogTag is a case-id suffix naming the log level when it is not the default.
+func LogTag() string {
+	if logLevel == 0 {
+		return ""
+	}
+	return fmt.Sprintf(",log-level=%d", logLevel)
+}
